@@ -76,14 +76,16 @@ CHECKS = {
 
 CHECKS.update({
     "C04": ("proof",
-            "Kernel-checked: one round-trip theorem per box (Props/C04.v, 39 theorems: every leaf box, the three sample entries with their configuration records, "
-            "the esds descriptors; containers as they land): for every value representable in the wire format the encoder returns box_size, writes exactly "
+            "Kernel-checked: one round-trip theorem per box (Props/C04.v: every leaf box, the sample entries with their configuration records, "
+            "the esds descriptors, and 13 containers): for every value representable in the wire format the encoder returns box_size, writes exactly "
             "header(size, own four-cc) ++ payload of that length without seeking, and decoding at ANY position followed by ANY sibling bytes, in either build mode, "
             "returns the value and leaves the stream exactly at the end of the box. Tie: the extracted codec model vs the real codec on the enumerated shape space "
             "(value trees parsed from {:?}, positions, sizes, return values, bytes). Oracle on the real codec: size/return/header laws, exact consumption with a "
-            "trailing sibling, decode(encode(v)) = v.",
-            "Coq round-trip proofs per box + model/implementation correspondence on the shape space",
-            "Containers (moov, trak, ...) are covered by correspondence and the oracle until their theorems land. Known finding D80 (AAC object type >= 32). " + TB),
+            "trailing sibling, decode(encode(v)) = v. Second half (Props/C04Fixpoint.v, 35 leaf + 14 container theorems): every value ANY decoder returns from ANY bytes lies in "
+            "the domain of its round trip, hence re-encoding is a fixpoint; refuted exactly for esds object type >= 31 (D80) and frequency index 15 (D95), with byte witnesses.",
+            "Coq round-trip proofs per box + Coq decoder-range proofs (fixpoint) + model/implementation correspondence on the shape space",
+            "Known findings D80 (AAC object type >= 32) and D95 (explicit sampling frequency dropped). url/dref/dinf: the reader accepts boxes violating the ISO self-contained-flag rule; "
+            "the round trip is re-proved without that conjunct. " + TB),
     "C05": ("proof",
             "Kernel-checked: the third conjunct of every round-trip theorem states that the encoder's bytes ARE the ISO layout iso_xxx_payload (Iso/*.v, written "
             "from ISO/IEC 14496-12/-14/-15 without reference to the encoder), the fifth that the decoder inverts that layout (restated for representative boxes in "
@@ -107,7 +109,7 @@ CHECKS.update({
             "outside never yield a sample. Tie/oracle: extracted specification and models vs the real reader on shape-exhaustive and random fragmented movies, as one stream and "
             "as init + media segment.",
             "Coq proof (lookup model = fragment specification) + correspondence",
-            "Known finding D72 (single trex). Runs without per-sample sizes / without tfdt are outside the property. " + TB),
+            "Known findings D72 (single trex) and D94 (only the last track run of a track fragment is kept). Runs without per-sample sizes / without tfdt are outside the property. " + TB),
     "C10": ("proof",
             "PARTIAL. Kernel-checked for the model: (a) every program of the read and write monads (open, open fragment, read_sample, every encoder) returns Err EIo whenever the "
             "injected fault is delivered, and a fault armed within the run's call count is delivered (free-monad theorems, no catch node exists); (b) short_reads_transparent / "
